@@ -52,6 +52,9 @@ func (s *Scanner) reset(r io.Reader) {
 	}
 	s.r.eof = false
 	s.idx = 0
+	// a pooled scanner must not remember the keywords of the text it scanned before
+	s.checkDOT = false
+	s.preToken = 0
 }
 
 // Scan returns the next token and position from the underlying reader.
@@ -64,7 +67,8 @@ func (s *Scanner) Scan() (tok Token, pos Pos, lit string) {
 		}
 		if tok >= FROM && tok <= ON {
 			s.checkDOT = true
-		} else if tok > ON && tok <= ASC {
+		} else if tok > ON && tok <= ASC && tok != AS {
+			// AS names a source inside a FROM list; more sources may follow
 			s.checkDOT = false
 		}
 	}()
